@@ -21,6 +21,36 @@ fn cfg(name: &str, desc: &str, setup: Vec<Op>, alphabet: Vec<Op>, depth: usize) 
     }
 }
 
+/// The lease life-cycle alphabet shared by C01..C05: every way a delivery can end or be prolonged, singly and in
+/// mixed batches (stale id before a live one), on a subscription with several coexisting deliveries.
+pub fn core_units(thorough: bool) -> Vec<Unit> {
+    use IdKind::*;
+    let alphabet = vec![
+        Op::Publish(T0, 1),
+        Op::Publish(T0, 2),
+        Op::Pull(S0, 1),
+        Op::Pull(S0, 10),
+        Op::Pull(S1, 10),
+        Op::Ack(S0, Oldest),
+        Op::Ack(S0, Newest),
+        Op::AckIds(S0, vec![Stale, B], false),
+        Op::AckIds(S0, vec![Unknown, A], true),
+        Op::Nack(S0, Newest),
+        Op::Mod(S0, Oldest, 10),
+        Op::Mod(S0, Newest, 30),
+        Op::ModIds(S0, vec![Stale, A], 20, false),
+        Op::ModIds(S0, vec![A, A], 15, false),
+        Op::AdvBefore,
+        Op::AdvPast,
+        Op::Adv(3_000),
+    ];
+    let mut v = vec![];
+    for n in if thorough { vec![4, 6] } else { vec![4, 5] } {
+        v.push(seq_unit(cfg("lease-lifecycle", "one topic, two subscriptions; acks / nacks / modifications singly and in mixed batches (stale or unknown id first, duplicate id), unary and as stream control messages, several coexisting deliveries with equal and different deadlines, every deadline probed", base_setup(), alphabet.clone(), n)));
+    }
+    v
+}
+
 pub fn base_setup() -> Vec<Op> {
     vec![Op::CreateTopic(T0), Op::CreateSub(S0, T0, 10), Op::CreateSub(S1, T0, 10)]
 }
